@@ -84,6 +84,7 @@ func main() {
 			fmt.Println(err)
 			os.Exit(2)
 		}
+		noInline = true // the table describes the tree as it is; nothing is a helper while it is being written
 		p := loadProg(*repo)
 		names := strings.Fields(string(b))
 		if len(names) == 1 && names[0] == "*" {
